@@ -19,12 +19,15 @@ const A = {
   ref:  { src: 'ref={t("ref")}', leaves: ['ref'], kind: 'plain' },
   sp1:  { src: '{...t("sp1")}', leaves: ['sp1'], kind: 'spread' },
   sp2:  { src: '{...{ z: t("sp2") }}', leaves: ['sp2'], kind: 'spreadlit' },
+  sp3:  { src: '{...{ "id": t("sp3"), "class": t("sp3c") }}', leaves: ['sp3', 'sp3c'], kind: 'spreadlit' },
+  id:   { src: 'id={t("id")}', leaves: ['id'], kind: 'plain' },
   on:   { src: 'on={t("on")}', leaves: ['on'], kind: 'on' },
   jsx:  { src: 'j={<i id={t("j")} />}', leaves: ['j'], kind: 'plain' },
   dir:  { src: 'v-foo={t("dv")}', leaves: ['dv'], kind: 'dir' },
   dir2: { src: 'v-bar={[t("dv2"), t("da2")]}', leaves: ['dv2', 'da2'], kind: 'dir' },
   html: { src: 'v-html={t("html")}', leaves: ['html'], kind: 'plain' },
   model:{ src: 'v-model={t("mo").p}', leaves: ['mo'], kind: 'model' },
+  models: { src: 'v-models={[[t("ms").p, "mx"]]}', leaves: ['ms'], kind: 'model' },
   modelArg: { src: 'v-model={[mv, t("ma")]}', leaves: ['ma'], kind: 'modelArg' },
 };
 const A_KEYS = Object.keys(A);
@@ -45,7 +48,7 @@ const HOSTS = { div: { tag: 'div', component: false }, Comp: { tag: 'Comp', comp
 function mkEnv() {
   const trace = [];
   const values = {
-    sp1: { id: 'sid', class: 'spc' }, on: { click: () => {} }, xs: ['xs0', 'xs1'], mo: { p: 'mop' }, ma: 'marg', q: true,
+    sp1: { id: 'sid', class: 'spc' }, on: { click: () => {} }, xs: ['xs0', 'xs1'], mo: { p: 'mop' }, ms: { p: 'msp' }, ma: 'marg', q: true,
   };
   const t = (label) => { trace.push(label); return label in values ? values[label] : 'v:' + label; };
   const lo = {};
@@ -135,7 +138,7 @@ function judge(c, resps) {
     }
     // ---- source order (directive leaves and the computed model argument are position-free)
     // on an element the v-model value lives in the directive binding (position-free); on a component it is a prop
-    const free = new Set([...dirLeaves, 'ma', 'nd', ...(h.component ? [] : ['mo'])]);
+    const free = new Set([...dirLeaves, 'ma', 'nd', ...(h.component ? [] : ['mo', 'ms'])]);
     const got = creation.filter((l) => !free.has(l));
     const exp = orderLeaves.filter((l) => !free.has(l)).concat(h.component ? (soleDynamic ? ['x1'] : []) : childLeaves.filter((l) => !free.has(l)));
     const dedupe = (xs) => xs.filter((l, i) => xs.indexOf(l) === i);
